@@ -42,6 +42,8 @@ class Dest(object):
     self.peer_fed = 0
     self.dn_paused = {}       # transport -> the downstream listener has paused reading
     self.dn_last = {}         # transport -> when the downstream listener last ingested a datapoint
+    self.fails_since_connect = 0
+    self.stop_requested = False   # stopClient() was called for it (removal on request)
     self.unwritten_start = 0  # index into accepted(non-self) of first not yet written
     self.removed_epochs = 0
 
@@ -223,6 +225,18 @@ class RelayWorld(object):
 
     f.sendDatapoint = sendDatapoint
     f.sendHighPriorityDatapoint = sendHighPriorityDatapoint
+    # connection attempts that ended (lost or failed) since the last one that succeeded
+    real_lost, real_failed = f.clientConnectionLost, f.clientConnectionFailed
+
+    def clientConnectionLost(connector, reason):
+      d.fails_since_connect += 1
+      return real_lost(connector, reason)
+
+    def clientConnectionFailed(connector, reason):
+      d.fails_since_connect += 1
+      return real_failed(connector, reason)
+    f.clientConnectionLost = clientConnectionLost
+    f.clientConnectionFailed = clientConnectionFailed
 
   def on_accept(self, d, metric, dp, hi_priority, dropped, q0, attempts):
     # a self-metric stays one (exempt from ordering and from the bound) when a
@@ -285,6 +299,7 @@ class RelayWorld(object):
         dest = dd
     if dest is None:
       return
+    dest.fails_since_connect = 0
     transport.bufferSize = self.plan.get('bufsize', 65536)
     transport.close_delay = self.plan.get('close_delay', 0.0)
     transport.peer_eager = not dest.stalled
@@ -570,6 +585,15 @@ class RelayWorld(object):
 
     def removeDestination(dest):
       before = me.snapshot_prefs() if me.route_checks else None
+      dd = me.dests.get(dest)
+      need = me.settings.DYNAMIC_ROUTER_MAX_RETRIES
+      if dd is not None and not me.stopping and dd.fails_since_connect < need and not dd.stop_requested:
+        # the dynamic router gives a destination up after DYNAMIC_ROUTER_MAX_RETRIES
+        # connection attempts in a row have ended badly, not before
+        me.ctx.violation('C06', 'destination-removed-although-it-reconnects', 'dynamic-router',
+                         '%s was taken out of the ring after %d connection loss(es)/failure(s) since '
+                         'its last successful connection; DYNAMIC_ROUTER_MAX_RETRIES is %d' % (
+                           dest, dd.fails_since_connect, need))
       real_rm(dest)
       me.member_ops.append(('remove', dest))
       me.membership_changed('remove', dest, before)
@@ -750,6 +774,7 @@ class RelayWorld(object):
         self.rules_fault_armed = op[1]
     elif k == 'stopclient':
       d = ds[op[1] % len(ds)]
+      d.stop_requested = True
       try:
         self.mgr.stopClient(d.dest)
         self.ctx.probe('stop_client')
@@ -887,6 +912,22 @@ class RelayWorld(object):
   def check_liveness(self):
     if self.stopping:
       return
+    # the hold-back buffer (datapoints that had no usable destination when they arrived)
+    # is handed back to the router whenever a destination joins: nothing routable stays in it
+    stranded = []
+    for (m, dp) in list(self.fake.queue):
+      try:
+        if list(self.router.getDestinations(m)):
+          stranded.append((m, dp))
+      except Exception:
+        pass
+    if stranded:
+      self.ctx.violation('C07', 'held-back-datapoints-stranded', 'liveness',
+                         '%d datapoints held back while no destination was usable are still in the '
+                         'hold-back buffer %.0f virtual seconds after the faults stopped although the '
+                         'router has destinations for them again (%d configured): %r' % (
+                           len(stranded), self.r.seconds() - self.heal_t,
+                           self.router.countDestinations(), stranded[:4]))
     dead = set(self.order[i % len(self.order)] for i in self.plan.get('dead', []))
     for d in self.dests.values():
       if d.dest in dead:
